@@ -348,6 +348,14 @@ func (i *interpreter) vpOpt(name string, v int) {
 	case "clock":
 		i.p.concreteClock = v != 0
 	default:
+		if strings.HasPrefix(name, "real:") {
+			// run the real code of a function that is normally replaced by a model
+			if i.realFns == nil {
+				i.realFns = map[string]bool{}
+			}
+			i.realFns[strings.TrimPrefix(name, "real:")] = v != 0
+			return
+		}
 		panic(engineError{"vpOpt: unknown option " + name})
 	}
 }
@@ -387,35 +395,11 @@ func (i *interpreter) hashUF(name string, bytes []value) []value {
 			return i.splitBytes(app, 32)
 		}
 	}
-	// injectivity against previous applications (same name and length)
-	for _, prev := range i.p.ufApps[fname] {
-		if prev == app {
-			continue
-		}
-		ax := st.Implies(st.RawEq(prev, app), st.Eq(prev.args[0], arg))
-		i.p.addPC(ax)
-	}
-	// different lengths / names never collide either
-	for other, apps := range i.p.ufApps {
-		if other == fname || !strings.HasPrefix(other, "H_") {
-			continue
-		}
-		for _, prev := range apps {
-			ax := st.Not(st.RawEq(prev, app))
-			i.p.addPC(ax)
-		}
-	}
-	found := false
-	for _, prev := range i.p.ufApps[fname] {
-		if prev == app {
-			found = true
-		}
-	}
-	if !found {
-		i.p.ufApps[fname] = append(i.p.ufApps[fname], app)
-		// no digest is the all-zero value (code uses it as "unset")
-		i.p.addPC(st.Not(st.RawEq(app, st.BVConst(0, 256))))
-		i.p.learn(st.Not(st.Eq(app, st.BVConst(0, 256))))
-	}
+	// The axioms (injectivity against every other application, different
+	// functions never collide, no digest is zero) are instantiated by the
+	// solver layer when the application first reaches the solver; the
+	// simplifier already decides whole-word comparisons (H(a)=H(b) <=> a=b).
+	i.p.ufApps[fname] = append(i.p.ufApps[fname], app)
+	i.p.learn(st.Not(st.Eq(app, st.BVConst(0, 256))))
 	return i.splitBytes(app, 32)
 }
